@@ -23,6 +23,22 @@ open Gen
 
 variable {β γ : Type}
 
+/-! the length of a non-empty sequence compared with 0 / 1, in the spellings a source may use (`== 0`, `< 1`, `<= 0`,
+`> 0`, `>= 1`, `!= 0`): the proofs below `simp` with these so that they hold for each such spelling -/
+theorem pos_eq (n : Nat) : ((n : Int) + 1 = 0) = False := by
+  first | (simp; done) | (simp; omega) | (apply propext; constructor <;> intro h <;> first | trivial | omega)
+theorem pos_eq' (n : Nat) : (0 = (n : Int) + 1) = False := by
+  first | (simp; done) | (simp; omega) | (apply propext; constructor <;> intro h <;> first | trivial | omega)
+theorem pos_lt (n : Nat) : ((n : Int) + 1 < 1) = False := by
+  first | (simp; done) | (simp; omega) | (apply propext; constructor <;> intro h <;> first | trivial | omega)
+theorem pos_le (n : Nat) : ((n : Int) + 1 ≤ 0) = False := by
+  first | (simp; done) | (simp; omega) | (apply propext; constructor <;> intro h <;> first | trivial | omega)
+theorem pos_gt (n : Nat) : (0 < (n : Int) + 1) = True := by
+  first | (simp; done) | (simp; omega) | (apply propext; constructor <;> intro h <;> first | trivial | omega)
+theorem pos_ge (n : Nat) : (1 ≤ (n : Int) + 1) = True := by
+  first | (simp; done) | (simp; omega) | (apply propext; constructor <;> intro h <;> first | trivial | omega)
+theorem zero_lt_one_int : ((0 : Int) < 1) = True := by simp
+
 /-! ### sessions: what the runner does with a Reaper -/
 
 /-- `k` calls of the Reaper, one after the other: the values returned, or the first exception; and the chain's state -/
@@ -228,15 +244,16 @@ theorem reaper_exit_iff (load : Int → Except PyErr (List β)) (files : List In
   rw [← chainTuple_nil] at hs
   obtain ⟨b, f, h1, h2⟩ := calls_ok load k [] files s hs hk
   refine ⟨b, f, by rw [h1], ?_⟩
-  simp only [exit, h2, Gen.reaperExit, Gen.Default.reaperExit]
-  by_cases h : k < s.length
-  · have : (s.drop k).isEmpty = false := by
-      cases hd : s.drop k with
-      | nil => have := congrArg List.length hd; simp at this; omega
-      | cons a t => rfl
-    simp [h, this]
-  · have : s.drop k = [] := List.drop_eq_nil_of_le (by omega)
-    simp [h, this]
+  simp only [exit, h2]
+  cases hd : s.drop k with
+  | nil =>
+    have : ¬ k < s.length := by
+      have := congrArg List.length hd; simp at this; omega
+    simp [this, Gen.reaperExit, Gen.Default.reaperExit]
+  | cons a t =>
+    have : k < s.length := by
+      have := congrArg List.length hd; simp at this; omega
+    simp [this, Gen.reaperExit, Gen.Default.reaperExit, pos_eq, pos_eq', pos_lt, pos_le, pos_gt, pos_ge]
 
 /-- **a session is the whole stream, gated by its length** (the laziness of the chain does not show): the first
 exception of a file that cannot be loaded; "Not all results reaped!" if there are more results than calls;
@@ -337,7 +354,6 @@ theorem reapStep_refines (o : Crop.Obj) (d : Crop.Dir β) (wait : Bool) (dflt : 
     | .error _ => ∃ e, Crop.reapStep o d (if wait then none else dflt) (.ok stream) i0 = .error e := by
   have hnat : ((i0 : Int) + 1).toNat = i0 + 1 := by omega
   have hpoll := pollUntil_const fuel (isFileOf d ((i0 : Int) + 1)) hfuel
-  have hpos : ∀ n : Nat, ¬ ((n : Int) + 1 = 0) := by intro n; omega
   simp only [loadOf, Gen.reaperLoadFn, Gen.Default.reaperLoadFn, Gen.reaperWaitToLoad, Gen.Default.reaperWaitToLoad,
     Gen.reaperLoad, Gen.Default.reaperLoad, Gen.stillWaiting, Crop.reapStep, hstatic, Bool.not_not, hpoll]
   simp only [isFileOf, readResultOf, readBatchOf, hnat]
@@ -350,14 +366,14 @@ theorem reapStep_refines (o : Crop.Obj) (d : Crop.Dir β) (wait : Bool) (dflt : 
       have := hbne _ _ hb
       cases b with
       | nil => exact absurd rfl this
-      | cons a t => simp [hpos]
+      | cons a t => simp [pos_eq, pos_eq', pos_lt, pos_le, pos_gt, pos_ge]
   | some r =>
     cases r with
     | bad => cases wait <;> cases dflt <;> simp
     | good rs =>
       cases rs with
       | nil => cases wait <;> cases dflt <;> simp
-      | cons a t => cases wait <;> cases dflt <;> simp [hpos]
+      | cons a t => cases wait <;> cases dflt <;> simp [pos_eq, pos_eq', pos_lt, pos_le, pos_gt, pos_ge]
 
 /-- the model's left fold over the batch numbers is the chain over the translated loader -/
 theorem foldl_reapStep_refines (o : Crop.Obj) (d : Crop.Dir β) (wait : Bool) (dflt : Option β) (junk : β) (bs : Int)
@@ -467,8 +483,21 @@ theorem reaperLoad_missing_default (dflt : β) (bs : Int) (isFile : Int → Bool
   cases b with
   | nil => exact absurd rfl hne
   | cons a t =>
-    have hpos : ∀ n : Nat, ¬ ((n : Int) + 1 = 0) := by intro n; omega
-    simp [Gen.reaperLoad, Gen.Default.reaperLoad, hmiss, hb, hpos]
+    simp [Gen.reaperLoad, Gen.Default.reaperLoad, hmiss, hb, pos_eq, pos_eq', pos_lt, pos_le, pos_gt, pos_ge]
+
+/-- **a result file that holds `None`** is refused with the "contains no data" ValueError -/
+theorem reaperLoad_none (hasDefault wait : Bool) (dflt : β) (bs : Int) (isFile : Int → Bool)
+    (readResult : Int → Except PyErr (Option (List β))) (readBatch : Int → Except PyErr (List γ)) (x : Int)
+    (hfile : isFile x = true) (hr : readResult x = .ok none) :
+    Gen.reaperLoad hasDefault wait dflt bs isFile readResult readBatch x = .error .valueError := by
+  simp [Gen.reaperLoad, Gen.Default.reaperLoad, hfile, hr]
+
+/-- **an empty result file** likewise -/
+theorem reaperLoad_empty (hasDefault wait : Bool) (dflt : β) (bs : Int) (isFile : Int → Bool)
+    (readResult : Int → Except PyErr (Option (List β))) (readBatch : Int → Except PyErr (List γ)) (x : Int)
+    (hfile : isFile x = true) (hr : readResult x = .ok (some [])) :
+    Gen.reaperLoad hasDefault wait dflt bs isFile readResult readBatch x = .error .valueError := by
+  simp [Gen.reaperLoad, Gen.Default.reaperLoad, hfile, hr]
 
 /-- the same for the function that is actually chained when `wait` is false -/
 theorem reaperLoadFn_missing_default (dflt : β) (bs : Int) (isFile : Int → Bool)
@@ -480,8 +509,7 @@ theorem reaperLoadFn_missing_default (dflt : β) (bs : Int) (isFile : Int → Bo
   cases b with
   | nil => exact absurd rfl hne
   | cons a t =>
-    have hpos : ∀ n : Nat, ¬ ((n : Int) + 1 = 0) := by intro n; omega
-    simp [Gen.reaperLoadFn, Gen.Default.reaperLoadFn, Gen.reaperLoad, Gen.Default.reaperLoad, hmiss, hb, hpos]
+    simp [Gen.reaperLoadFn, Gen.Default.reaperLoadFn, Gen.reaperLoad, Gen.Default.reaperLoad, hmiss, hb, pos_eq, pos_eq', pos_lt, pos_le, pos_gt, pos_ge]
 
 /-- **a result file that is there, readable and non-empty is loaded as it is** — waiting (once the loop has seen it) or
 not, with or without a stand-in: a stand-in never replaces an existing result -/
@@ -494,14 +522,13 @@ theorem reaperLoadFn_present (hasDefault wait : Bool) (dflt : β) (bs : Int) (is
   cases rs with
   | nil => exact absurd rfl hne
   | cons a t =>
-    have hpos : ∀ n : Nat, ¬ ((n : Int) + 1 = 0) := by intro n; omega
     cases wait with
     | false =>
-      simp [Gen.reaperLoadFn, Gen.Default.reaperLoadFn, Gen.reaperLoad, Gen.Default.reaperLoad, hfile, hr, hpos]
+      simp [Gen.reaperLoadFn, Gen.Default.reaperLoadFn, Gen.reaperLoad, Gen.Default.reaperLoad, hfile, hr, pos_eq, pos_eq', pos_lt, pos_le, pos_gt, pos_ge]
     | true =>
       obtain ⟨t0, ht0⟩ := pollUntil_some fuel (fun t => existsAt t x) (by simpa using hex rfl)
       simp [Gen.reaperLoadFn, Gen.Default.reaperLoadFn, Gen.reaperWaitToLoad, Gen.Default.reaperWaitToLoad,
-        Gen.reaperLoad, Gen.Default.reaperLoad, hfile, hr, hpos, ht0]
+        Gen.reaperLoad, Gen.Default.reaperLoad, hfile, hr, pos_eq, pos_eq', pos_lt, pos_le, pos_gt, pos_ge, ht0]
 
 /-- **a waiting Reaper whose file does not show up is still waiting**: it neither raises nor uses a stand-in -/
 theorem reaperLoadFn_waiting (hasDefault : Bool) (dflt : β) (bs : Int) (isFile : Int → Bool)
